@@ -4,6 +4,7 @@ package c01
 import (
 	"bytes"
 	"fmt"
+	"sync"
 	"testing"
 	"time"
 
@@ -15,6 +16,7 @@ import (
 	"verif/harness/hook"
 	"verif/harness/rp"
 	"verif/harness/spec"
+	"verif/harness/zones"
 )
 
 func TestMain(m *testing.M) {
@@ -34,6 +36,7 @@ type step struct {
 type history struct {
 	Cfg   [2]hook.ClientCfg `json:"cfg"`
 	Steps []step            `json:"steps"`
+	Zone  string            `json:"zone,omitempty"` // process-local zone while the history runs ("" = UTC)
 }
 
 func genCfg(t *rapid.T, serials []uint32) hook.ClientCfg {
@@ -79,6 +82,9 @@ func genHistory(t *rapid.T) history {
 	}
 	h.Cfg[0] = genCfg(t, us)
 	h.Cfg[1] = genCfg(t, us)
+	if rapid.IntRange(0, 2).Draw(t, "zone.kind") == 0 {
+		h.Zone = rapid.SampledFrom(zones.Spread(24)).Draw(t, "zone")
+	}
 	return h
 }
 
@@ -133,13 +139,25 @@ func reply(cs api.Case, kind int) [][]byte {
 	return [][]byte{b}
 }
 
-func checkHistory(h history) *rp.Fail {
+func checkHistory(h history) (f *rp.Fail) {
+	if h.Zone != "" && h.Zone != "UTC" {
+		ev.Class("history/non-utc-process-zone", 1)
+	}
+	zones.With(zones.Loc(h.Zone), func() { f = checkHistoryZ(h) })
+	return f
+}
+
+func checkHistoryZ(h history) *rp.Fail {
 	ua, da := hook.Mem(h.Cfg[0])
 	ub, db := hook.Mem(h.Cfg[1])
 	for i, s := range h.Steps {
 		u, d := ua, da
 		if s.Client == 1 {
 			u, d = ub, db
+		}
+		if !datesExist(s.Case) {
+			ev.Excluded("calendar day that does not exist in the process zone", 1)
+			continue
 		}
 		want := spec.Request(s.Case.Call)
 		nt := s.Case.Call.Op != "" && (len(spec.Requests[s.Case.Call.Op].Fields) <= 1 || !bytes.Equal(want[8:], make([]byte, 56)))
@@ -196,6 +214,16 @@ func checkHistory(h history) *rp.Fail {
 		}
 	}
 	return nil
+}
+
+// datesExist: a Date built with ToDate needs the civil day to exist in the process zone (Pacific/Apia 2011-12-30 does not).
+func datesExist(cs api.Case) bool {
+	for i, c := range []spec.Civil{cs.Call.From, cs.Call.To} {
+		if !c.IsZero() && cs.V.DateLoc[i] == "" && !zones.DayExists(time.Local, c.Y, c.M, c.D) {
+			return false
+		}
+	}
+	return true
 }
 
 func firstDiff(a, b []byte) int {
@@ -282,6 +310,66 @@ func sweepBytes(yield func(history) bool) {
 func props() []rp.Prop {
 	return []rp.Prop{
 		rp.P[history]{Name: "history", Checks: ev.Pick(4000, 150000) / ev.Shards(), Gen: genHistory, Sweep: sweepBytes, Check: checkHistory},
+	}
+}
+
+// TestAAAColdStart runs FIRST in the process: many goroutines issue every operation at once on fresh clients, before
+// anything in the library has been used (lazily initialised package state, first-use caches). Each request must
+// still be the encoding of its own call.
+func TestAAAColdStart(t *testing.T) {
+	if ev.Replaying() {
+		t.Skip()
+	}
+	ev.Rapid("coldstart", 1)
+	var cases []api.Case
+	rapid.Check(t, func(rt *rapid.T) {
+		cases = nil
+		for _, op := range spec.Ops {
+			if op != "GetDevices" {
+				cases = append(cases, gen.Call(rt, op))
+			}
+		}
+	})
+	const workers = 12
+	type outcome struct {
+		w, i int
+		got  []byte
+		n    int
+	}
+	results := make(chan outcome, workers*len(cases))
+	start := make(chan struct{})
+	var wg sync.WaitGroup
+	for w := 0; w < workers; w++ {
+		wg.Add(1)
+		go func(w int) {
+			defer wg.Done()
+			u, d := hook.Mem(hook.ClientCfg{})
+			<-start
+			for k := range cases {
+				i := (k + w*5) % len(cases) // the workers walk the operations in different rotations
+				d.Reset()
+				api.Invoke(u, cases[i])
+				o := outcome{w: w, i: i, n: len(d.Sends())}
+				if o.n == 1 {
+					o.got = d.Sends()[0].Request
+				}
+				results <- o
+			}
+		}(w)
+	}
+	close(start)
+	wg.Wait()
+	close(results)
+	for o := range results {
+		want := spec.Request(cases[o.i].Call)
+		ev.Case("coldstart/"+cases[o.i].Call.Op, true, fmt.Sprint(o.w, o.i))
+		if o.n != 1 || !bytes.Equal(o.got, want) {
+			msg := fmt.Sprintf("cold start, %d goroutines: %s sent %d request(s) %x, protocol encoding is %x", workers, cases[o.i].Call.Op, o.n, o.got, want)
+			if ev.Failure("coldstart", "uhppote."+cases[o.i].Call.Op+"/concurrent-first-use", msg, cases[o.i]) {
+				t.Errorf("%s", msg)
+				return
+			}
+		}
 	}
 }
 
